@@ -92,7 +92,7 @@ def cursor_trace(tid, rng, cls_name, n, hist_len, small=False):
                 sig="history", lx=[], ly=[], msl=0, max_depth=0, criterion="")
 
 
-def leaf_traces(tid0, rng, criterion, count):
+def leaf_traces(tid0, rng, criterion, count, variant=None):
     from mlinsights.mlmodel import PiecewiseTreeRegressor
     out = []
     n = rng.randint(6, 40)
@@ -100,16 +100,17 @@ def leaf_traces(tid0, rng, criterion, count):
     ys = [rng.randint(0, 9) + (2 * x if rng.random() < 0.7 else 0) for x in xs]
     # the unit of the feature is the caller's business: the same integers times a power of two (exact in floating
     # point) give the same leaves and the same per-leaf least squares, so the trace keeps the unscaled integers
-    unit = 2.0 ** rng.choice([0, 0, 20, 33, -20])
+    # (variant: the systematic part of the plan - every unit, an origin, an earlier life - the rest is drawn)
+    unit = 2.0 ** (rng.choice([0, 0, 20, 33, -20]) if variant is None else [0, 20, 33, -20, 0, 0][variant % 6])
     # ... and so is its origin: with an offset that single precision cannot hold (4096.61) the per-leaf least squares,
     # which is translation invariant, is still evaluated at the row as given (float64)
-    origin = 4096.61 if unit == 1.0 and rng.random() < 0.4 else 0.0
+    origin = 4096.61 if unit == 1.0 and (rng.random() < 0.4 if variant is None else variant % 6 >= 4) else 0.0
     X = numpy.array(xs, dtype=numpy.float64).reshape((-1, 1)) * unit + origin
     y = numpy.array(ys, dtype=numpy.float64)
     md = rng.choice([1, 2, 3])
     msl = rng.choice([1, 2, 3, 5])
     model = PiecewiseTreeRegressor(criterion=criterion, max_depth=md, min_samples_leaf=msl)
-    prior = rng.random() < 0.4
+    prior = rng.random() < 0.4 if variant is None else variant % 2 == 1
     if prior:
         # an earlier life of the instance with the OTHER criterion, another depth and other rows
         model.set_params(criterion="simple" if criterion == "mselin" else "mselin", max_depth=rng.choice([1, 2, 4]))
@@ -186,10 +187,11 @@ def run(ctx):
         t = cursor_trace(tid, rng, cls_name, n, rng.randint(3, 9))
         ctx.case(("hist", cls_name, tuple(t["Y"]), tuple(t["W"]), tuple(t["X"]), str(t["ev"])), nontrivial=n >= 3)
         traces.append(t)
-    for k in range(60 if thorough else 20):
-        crit = rng.choice(["mselin", "simple"])
+    for k in range(60 if thorough else 24):
+        # the first twelve: both criteria x every unit / origin / earlier life, then drawn at random
+        crit = rng.choice(["mselin", "simple"]) if k >= 12 else ["mselin", "simple"][k // 6]
         try:
-            ts, restored = leaf_traces(tid + 1, rng, crit, 8)
+            ts, restored = leaf_traces(tid + 1, rng, crit, 8, variant=k if k < 12 else None)
         except Exception as e:
             ctx.violation("FitSucceeds", "mlmodel.PiecewiseTreeRegressor(criterion=%r)" % crit, "fit", repr(e))
             continue
